@@ -286,14 +286,17 @@ class WebVTTWriter(BaseWriter):
                 cue_style_tags[0] += tags[0]
                 cue_style_tags[1] = tags[1] + cue_style_tags[1]
 
+        cues = []
         for cue_text, layout in layout_groups:
             if not layout:
                 layout = caption.layout_info or self.global_layout
             cue_settings = self._convert_positioning(layout)
-            output += timespan + cue_settings + "\n"
-            output += cue_style_tags[0] + cue_text + cue_style_tags[1] + "\n"
+            cue = timespan + cue_settings + "\n"
+            cue += cue_style_tags[0] + cue_text + cue_style_tags[1] + "\n"
+            cues.append(cue)
 
-        return output
+        # Cue blocks are separated by a blank line.
+        return "\n".join(cues)
 
     def _convert_positioning(self, layout):
         """
